@@ -3,7 +3,7 @@
    interleaving of pacer answers, clock advances, targeter outcomes, response completions,
    consumption and Stop calls, of any length, for every configuration with maxw >= 1. *)
 From Coq Require Import ZArith List Bool.
-From V Require Import Model.AttackLTS Model.StopRace Proofs.AttackProofs.
+From V Require Import Model.AttackLTS Model.StopRace Proofs.AttackProofs Gen.Skel.
 Import ListNotations.
 Open Scope Z_scope.
 
@@ -72,6 +72,10 @@ Theorem stop_once_flag_exactly_one : forall n is s, sched fixed_step (start_stat
   (trues s <= 1)%nat /\ (is <> [] -> trues s = 1%nat).
 Proof. exact fixed_exactly_one_lemma. Qed.
 Print Assumptions stop_once_flag_exactly_one.
+(* proof obligation on the CURRENT source of Attacker.Stop (classified by the translator): the
+   returned flag is set inside the sync.Once body only and no channel test decides it *)
+Theorem stop_has_once_flag_shape : stop_shape = 1.
+Proof. vm_compute. reflexivity. Qed.
 (* ... whereas the pinned select/default shape lets two callers both return true *)
 Theorem stop_exactly_one_refuted :
   exists is s, sched pinned_step (start_state 2) is = Some s /\ all_returned s = true /\ trues s = 2%nat.
